@@ -216,6 +216,14 @@ def run(prog, ctx):
     reg = prog.cls(REG)
     ds = prog.cls(DS)
 
+    # ------------------------------------------------------------------ D6 (shared with C16.D7): the design matrix of the
+    # dimension-wise path is filled by the completely vectorised hat; a grid point that is a training point must get the value 1
+    from ..hats import check_hat_centre
+    ctx.floor("C20.D6", check_hat_centre(prog, ctx, "C20.D6"), 3, "hat implementations analysed for the centre rule")
+
+    # ------------------------------------------------------------------ D7 the surpluses handed out are solved in this call
+    check_fresh_surpluses(prog, ctx, reg)
+
     # ------------------------------------------------------------------ D1
     accepted, cpath = sklearn_feature_range_constraint()
     if cpath is None:
@@ -540,3 +548,70 @@ def check_uniform_gradient_gram(prog, ctx):
              and tm.term(n.ast.value) == ("n", "temp_res") for n in c.nodes if n.kind == "stmt")
     ctx.check(ok, "C20.D5", R.key_of(fi, "sum-over-dimensions"), fi.loc(), "the entry is the sum over the differentiated dimension of the per-dimension products",
               "build_C_matrix no longer sums the per-dimension products into the entry")
+
+
+def check_fresh_surpluses(prog, ctx, reg):
+    """Every method of Regression that fills self.surpluses solves the system in the same invocation on every path to a normal
+    exit, stores exactly that solution, and never reads the store it fills (a level vector solved for an earlier training set
+    must not be handed out again: train() re-splits the data on every call)."""
+    n = 0
+    for fi in reg.methods.values():
+        fills = []
+        for c in R.calls_in(fi.node):
+            if isinstance(c.func, ast.Attribute) and c.func.attr in ("update", "__setitem__", "setdefault") \
+                    and R.self_attr(c.func.value, fi.self_name) == "surpluses":
+                fills.append(c)
+        for st in walk_local(fi.node):
+            if isinstance(st, ast.Assign):
+                for t in st.targets:
+                    if isinstance(t, ast.Subscript) and R.self_attr(t.value, fi.self_name) == "surpluses":
+                        fills.append(st)
+        if not fills:
+            continue
+        ctx.touch(fi)
+        n += 1
+        c = cfg_of(fi)
+        solves = [nd for nd in c.nodes if nd.kind in ("stmt", "test") and nd.ast is not None and any(
+            isinstance(x, ast.Call) and isinstance(x.func, ast.Attribute) and x.func.attr.startswith("solve_regression")
+            and isinstance(x.func.value, ast.Name) and x.func.value.id == fi.self_name for x in ast.walk(nd.ast))]
+        problems = []
+        if not solves:
+            problems.append("no call of self.solve_regression* found")
+        elif not c.must_pass_through(c.entry, [c.exit], solves):
+            wit = c.path_avoiding(c.entry, [c.exit], solves)
+            line = next((getattr(w.ast, "lineno", None) for w in reversed(wit or []) if getattr(w, "ast", None) is not None and hasattr(w.ast, "lineno")), None)
+            problems.append("a path reaches a normal exit (line %s) without solving the system in this call" % line)
+        # values stored: names whose every definition is a solve call
+        solved_names = set()
+        defs = {}
+        for st in walk_local(fi.node):
+            if isinstance(st, ast.Assign) and len(st.targets) == 1 and isinstance(st.targets[0], ast.Name):
+                defs.setdefault(st.targets[0].id, []).append(st.value)
+        for name, vals in defs.items():
+            if all(isinstance(v, ast.Call) and isinstance(v.func, ast.Attribute) and v.func.attr.startswith("solve_regression") for v in vals):
+                solved_names.add(name)
+        for f in fills:
+            if isinstance(f, ast.Call):
+                vals = []
+                for a in f.args:
+                    if isinstance(a, ast.Dict):
+                        vals += a.values
+                    else:
+                        vals.append(a)
+                vals = vals[-1:] if f.func.attr != "update" else vals
+            else:
+                vals = [f.value]
+            for v in vals:
+                good = (isinstance(v, ast.Name) and v.id in solved_names) or \
+                       (isinstance(v, ast.Call) and isinstance(v.func, ast.Attribute) and v.func.attr.startswith("solve_regression"))
+                if not good:
+                    problems.append("`%s` stores a value that is not the solution computed in this call" % src(f))
+        fill_ids = {id(f.func.value) for f in fills if isinstance(f, ast.Call)} | \
+                   {id(t.value) for f in fills if isinstance(f, ast.Assign) for t in f.targets if isinstance(t, ast.Subscript)}
+        for x in walk_local(fi.node):
+            if isinstance(x, ast.Attribute) and R.self_attr(x, fi.self_name) == "surpluses" and id(x) not in fill_ids:
+                problems.append("line %d reads self.surpluses inside the method that fills it (surpluses of an earlier training set can be handed out)" % x.lineno)
+        ctx.check(not problems, "C20.D7", R.key_of(fi, "solved-in-this-call"), fi.loc(),
+                  "every normal exit is preceded by a solve in this call, the solution is what is stored, the store is not read back",
+                  "%s: %s" % (fi.name, "; ".join(problems)))
+    ctx.floor("C20.D7", n, 2, "methods of Regression filling self.surpluses")
